@@ -72,6 +72,8 @@ func run(t *testing.T, ck Check) {
 		// switched off and Explore collects every gcEvery executions: the allocator then cycles
 		// through the same ~100 MB of resident memory.
 		debug.SetGCPercent(-1)
+		ScratchBase = filepath.Join(dir, fmt.Sprintf("wal-w%d", sh.Index))
+		_ = os.MkdirAll(ScratchBase, 0o755)
 		for i, sc := range scs {
 			Explore(t, sc, ck.Oracle, sh, filepath.Join(dir, fmt.Sprintf("s%d", i)), r.Expired, p)
 		}
@@ -145,6 +147,8 @@ func replay(t *testing.T, r *vr.Run, ck Check, scs []*Scenario, rp Replay) {
 		}
 		big := *sc
 		big.Budget = 1 << 20
+		ScratchBase = filepath.Join(r.Scratch(), "wal-replay")
+		_ = os.MkdirAll(ScratchBase, 0o755)
 		res := Exec(t, &big, ck.Oracle, rp.Path, true)
 		if res.Err != "" {
 			vr.Fatalf("replay: %s", res.Err)
